@@ -41,15 +41,15 @@ func meet(a, b mstate) mstate {
 
 // mountAnalysis computes the mounted-topic typestate.
 type mountAnalysis struct {
-	c                                  *Ctx
-	prefixM, prefixF, lwtM, getTopics  *types.Func
-	logGet, logConsume, topicsGet      *types.Func
-	byPattern, subsAll, byPeerSubs     *types.Func
-	sessByPeer, sessAll, sessGet       *types.Func
-	decode                             *types.Func
-	memo                               map[string]mstate
-	why                                map[string]string
-	depth                              int
+	c                                 *Ctx
+	prefixM, prefixF, lwtM, getTopics *types.Func
+	logGet, logConsume, topicsGet     *types.Func
+	byPattern, subsAll, byPeerSubs    *types.Func
+	sessByPeer, sessAll, sessGet      *types.Func
+	decode                            *types.Func
+	memo                              map[string]mstate
+	why                               map[string]string
+	depth                             int
 }
 
 func (ma *mountAnalysis) isPrefixCall(cl *core.Call) bool { return cl.Is(ma.prefixM, ma.prefixF) }
